@@ -370,8 +370,8 @@ def binding_selftest(rep, rnd):
         raise tlc.TLCError("binding self-test: corrupted traces accepted: %s" % hard)
 
 
-def main(pid):
-    rep = evidence.Report(pid, "model_checking")
+def main(pid, rep=None, finish=True):
+    rep = rep or evidence.Report(pid, "model_checking")
     thorough = rep.tier == "thorough"
     rnd = random.Random(rep.seed * 7919 + 13)
     own = set(OWN[pid])
@@ -425,7 +425,9 @@ def main(pid):
         rep.set("exhaustive", False)
         rep.set("rule", "B1: one test per transition of TLC's state graph (replay instances); B2: random configurations "
                 "and schedules validated by TLC trace spec; distinct = distinct (cfg, action path)")
-        sys.exit(rep.finish())
+        if finish:
+            sys.exit(rep.finish())
+        return
     except tlc.TLCError as e:
         evidence.machinery_failure(pid, e)
 
